@@ -54,6 +54,11 @@ type Hay struct {
 	Anc  [][]int `json:"anc"`  // leftmost-first match starting exactly at each symbol position
 	Ends [][]int `json:"ends"` // all match ends per start position
 	OPS  []int   `json:"ops"`  // MC_OnePass: result of the model's one-pass search (empty = none)
+	// MC_ReverseSuffix: the model driver's answers (byte offsets; empty = none)
+	RFA  [][]int `json:"rfa"`  // FindAt from every symbol position
+	RF   []int   `json:"rf"`   // Find
+	RIM  *bool   `json:"rim"`  // IsMatch
+	RBad bool    `json:"rbad"` // the model driver differs from the reference on this haystack
 	// replace / split records
 	Rep   []RepOut  `json:"rep,omitempty"`
 	Split []SplitIO `json:"split,omitempty"`
@@ -83,6 +88,8 @@ type Record struct {
 	Names [][]int  `json:"names"`
 	Hs    []Hay    `json:"hs"`
 	OP    *bool    `json:"op,omitempty"` // MC_OnePass: the model's verdict "one-pass"
+	RSS   []int    `json:"rsS,omitempty"` // MC_ReverseSuffix: bytes of the suffix literal
+	MSZ   *bool    `json:"msz,omitempty"` // MC_ReverseSuffix: the pattern is exactly `.*L`
 	Raw   json.RawMessage
 	ReRaw json.RawMessage `json:"-"`
 }
